@@ -14,6 +14,15 @@ def OutFrame.isHeaders : OutFrame → Bool
   | .headers _ _ _ => true
   | _ => false
 
+/-- a control frame: what the read loop queues for the write loop (neither HEADERS nor DATA) -/
+def OutFrame.isCtl : OutFrame → Bool
+  | .headers _ _ _ => false
+  | .data _ _ _ => false
+  | _ => true
+
+theorem OutFrame.isCtl_notHeaders {f : OutFrame} (h : f.isCtl = true) : f.isHeaders = false := by
+  cases f <;> first | rfl | cases h
+
 /-- some stream of the table is registered for the tag -/
 def InTable (c : Conn) (t : String) : Prop := ∃ sid, (sid, t) ∈ c.reqQueued
 
@@ -47,7 +56,7 @@ structure RdRel (c c' : Conn) : Prop where
   nextID : c'.nextID = c.nextID
   goAway : c.goAway = true → c'.goAway = true
   closed : c'.stateClosed = true → c.stateClosed = true ∨ c'.goAway = true
-  outQ : ∀ f ∈ c'.outQ, f ∈ c.outQ ∨ f.isHeaders = false
+  outQ : ∀ f ∈ c'.outQ, f ∈ c.outQ ∨ f.isCtl = true
 
 theorem TableOK.of_eq {c c' : Conn} (h : c'.reqQueued = c.reqQueued) : TableOK c c' := by
   intro t ⟨sid, hm⟩; left; exact ⟨sid, by rw [h]; exact hm⟩
@@ -62,7 +71,7 @@ theorem TableOK.trans {a b c : Conn} (h1 : TableOK a b) (h2 : TableOK b c) (hle 
 theorem RdRel.of_fields {c c' : Conn} (h1 : c'.reqs = c.reqs) (h2 : c'.reqQueued = c.reqQueued) (h3 : c'.dead = c.dead)
     (h4 : c'.stuck = c.stuck) (h5 : c'.nextID = c.nextID) (h6 : c.goAway = true → c'.goAway = true)
     (h7 : c'.stateClosed = true → c.stateClosed = true ∨ c'.goAway = true)
-    (h8 : ∀ f ∈ c'.outQ, f ∈ c.outQ ∨ f.isHeaders = false) : RdRel c c' :=
+    (h8 : ∀ f ∈ c'.outQ, f ∈ c.outQ ∨ f.isCtl = true) : RdRel c c' :=
   ⟨MapLe.of_reqs h1, TableOK.of_eq h2, by rw [h2]; exact List.Sublist.refl _, h3, h4, h5, h6, h7, h8⟩
 
 theorem RdRel.refl (c : Conn) : RdRel c c :=
@@ -220,7 +229,7 @@ theorem rdRel_updReq (c : Conn) (tag : String) (f : Req → Req) (hf : ∀ r, r.
     (hl : ∀ r, getReq c tag = some r → Req.Le r (f r)) : RdRel c (updReq c tag f) :=
   ⟨mapLe_updReq c tag f hf hl, TableOK.of_eq rfl, List.Sublist.refl _, rfl, rfl, rfl, id, Or.inl, fun _ h => .inl h⟩
 
-theorem rdRel_queueOut (c : Conn) (f : OutFrame) (hf : f.isHeaders = false) : RdRel c (queueOut c f) := by
+theorem rdRel_queueOut (c : Conn) (f : OutFrame) (hf : f.isCtl = true) : RdRel c (queueOut c f) := by
   refine RdRel.of_fields rfl rfl rfl rfl rfl id Or.inl ?_
   intro g hg
   simp only [queueOut, List.mem_append, List.mem_singleton] at hg
